@@ -194,7 +194,24 @@ def _random_block(r):
     n = r.choice([2, 3, 5, 8, 20, 60, 200, 400])
     desc = (direction or "").lower() == "desc"
     # mostly sorted sequence with a few perturbations, so that both verdicts occur
-    if numeric:
+    if numeric and r.random() < 0.4:
+        # numbers whose differences are far below (or whose size is far above) everyday magnitudes: neighbours closer than
+        # f64::EPSILON, integers around 2^53 (several spellings of one double are EQUAL neighbours), very large and very small exponents
+        fam = r.choice(["tiny", "near-half", "big-int", "exponents"])
+        if fam == "tiny":
+            vals = [(k, r.choice(["%de-17" % k, "%dE-17" % k, "0.%s%d" % ("0" * (16 if 0 < k < 10 else 15), k) if 0 < k < 100 else "%de-17" % k]))
+                    for k in (r.randint(-30, 30) for _ in range(n)) if k != 0]
+            vals = [(float(t), t) for _, t in vals]
+        elif fam == "near-half":
+            vals = [(0.5 + k * 2.0 ** -53, repr(0.5 + k * 2.0 ** -53)) for k in (r.randint(0, 40) for _ in range(n))]
+        elif fam == "big-int":
+            vals = [(float(t), t) for t in (str(2 ** 53 + r.randint(-6, 6)) for _ in range(n))]
+        else:
+            vals = [(float(t), t) for t in ("%s%de%s%d" % (r.choice(["", "-"]), r.randint(1, 9), r.choice(["", "+", "-"]), r.choice([0, 1, 17, 100, 300]))
+                                            for _ in range(n))]
+        vals.sort(key=lambda v: v[0], reverse=desc)
+        keys = [t for _, t in vals]
+    elif numeric:
         vals = sorted((r.choice([r.randint(-50, 50), round(r.uniform(-9, 9), 2), r.randint(0, 5)]) for _ in range(n)),
                       reverse=desc)
         keys = [("%g" % v if r.random() < 0.8 else "%.1f" % v) for v in vals]
